@@ -1,4 +1,6 @@
 #include "mon.h"
+#include <execinfo.h>
+#include <dlfcn.h>
 #include <stdio.h>
 #include <stdlib.h>
 #include <string.h>
@@ -340,6 +342,8 @@ const char *g_describe(const void *addr, char *buf, size_t n)
 }
 
 /* ---------------- signals ---------------- */
+static void dump_stats(void);
+static volatile int mon_in_child; static int mon_child_pipe = -1;
 static struct sigaction old_segv, old_bus, old_fpe;
 static void on_fault(int sig, siginfo_t *si, void *ctx)
 {
@@ -347,6 +351,38 @@ static void on_fault(int sig, siginfo_t *si, void *ctx)
     g_describe(si->si_addr, d, sizeof d);
     int n = snprintf(line, sizeof line, "FAULT %ld sig=%d addr=%p %s\n", mon_case_idx, sig, si->si_addr, d);
     wr(line, (size_t)n);
+#if !defined(__SANITIZE_THREAD__) && !defined(__SANITIZE_ADDRESS__)
+    {   /* call chain by symbol name (plain builds only; the sanitizer builds print their own report) */
+        void *bt[32]; int nb = backtrace(bt, 32); int o = snprintf(line, sizeof line, "FRAMES %ld", mon_case_idx);
+        for (int i = 2; i < nb && o < (int)sizeof line - 64; i++) {
+            Dl_info di; memset(&di, 0, sizeof di);
+            if (!dladdr(bt[i], &di) || !di.dli_fname) { o += snprintf(line + o, sizeof line - (size_t)o, " ?"); continue; }
+            const char *fn = strrchr(di.dli_fname, '/'); fn = fn ? fn + 1 : di.dli_fname;
+            if (di.dli_sname) o += snprintf(line + o, sizeof line - (size_t)o, " %s@%.24s", di.dli_sname, fn);
+            else o += snprintf(line + o, sizeof line - (size_t)o, " +0x%lx@%.24s", (unsigned long)((char *)bt[i] - (char *)di.dli_fbase), fn);
+        }
+        line[o++] = '\n'; wr(line, (size_t)o);
+        if (mon_in_child) {
+            /* forked case (mon_fork_run): tell the parent where and what; the parent decides */
+            char site[96] = "?"; int got = 0;
+            for (int i = 2; i < nb && !got; i++) {
+                Dl_info di; memset(&di, 0, sizeof di);
+                if (!dladdr(bt[i], &di) || !di.dli_fname) continue;
+                const char *fn = strrchr(di.dli_fname, '/'); fn = fn ? fn + 1 : di.dli_fname;
+                if (strncmp(fn, "liberasurecode", 14) && strncmp(fn, "libXorcode", 10) && strncmp(fn, "libnullcode", 11) && strncmp(fn, "libisal", 7)) continue;
+                if (di.dli_sname) snprintf(site, sizeof site, "%s", di.dli_sname);
+                else snprintf(site, sizeof site, "%.20s+0x%lx", fn, (unsigned long)((char *)bt[i] - (char *)di.dli_fbase));
+                got = 1;
+            }
+            char msg[160]; int mn = snprintf(msg, sizeof msg, "%d %d %s\n", sig, (uintptr_t)si->si_addr < 0x10000 ? 1 : 0, site);
+            if (mon_child_pipe >= 0) { ssize_t ww = write(mon_child_pipe, msg, (size_t)mn); (void)ww; }
+            _exit(199);
+        }
+        /* save the counters of this process (they would die with it); an alarm bounds the attempt */
+        static volatile int dumping;
+        if (!dumping) { dumping = 1; alarm(10); dump_stats(); wr("CRASHDUMP\n", 10); alarm(0); }
+    }
+#endif
 #if defined(__SANITIZE_THREAD__)
     /* ThreadSanitizer's own deadly-signal handling can spin for minutes when several
      * threads fault at once; the FAULT line above is all the orchestrator needs */
@@ -365,9 +401,41 @@ static void install_handlers(void)
     sa.sa_sigaction = on_fault;
     sa.sa_flags = SA_SIGINFO | SA_NODEFER;
     sigemptyset(&sa.sa_mask);
+    { void *warm[4]; backtrace(warm, 4); }      /* loads libgcc_s now, not inside the handler */
     sigaction(SIGSEGV, &sa, &old_segv);
     sigaction(SIGBUS, &sa, &old_bus);
     sigaction(SIGFPE, &sa, &old_fpe);
+}
+
+
+/* ---------------- forked cases ---------------- */
+#include <sys/wait.h>
+int mon_fork_run(int (*fn)(void *), void *arg, mon_child_t *out)
+{
+    memset(out, 0, sizeof *out);
+    int pfd[2]; if (pipe(pfd)) return -1;
+    pid_t pid = fork();
+    if (pid < 0) { close(pfd[0]); close(pfd[1]); return -1; }
+    if (pid == 0) {
+        close(pfd[0]); mon_in_child = 1; mon_child_pipe = pfd[1];
+        alarm(120);
+        int r = fn(arg);
+        _exit(r & 0x7f);
+    }
+    close(pfd[1]);
+    char buf[200]; ssize_t n = 0, got;
+    while ((got = read(pfd[0], buf + n, sizeof buf - 1 - (size_t)n)) > 0) n += got;
+    buf[n > 0 ? n : 0] = 0; close(pfd[0]);
+    int st = 0; while (waitpid(pid, &st, 0) < 0 && errno == EINTR) ;
+    if (WIFEXITED(st) && WEXITSTATUS(st) == 199 && n > 0) {
+        out->faulted = 1; int sg = 0, np = 0; char site[96] = "?";
+        sscanf(buf, "%d %d %95s", &sg, &np, site);
+        out->sig = sg; out->nullpage = np; snprintf(out->site, sizeof out->site, "%s", site);
+        return 0;
+    }
+    if (WIFSIGNALED(st)) { out->faulted = 1; out->sig = WTERMSIG(st); snprintf(out->site, sizeof out->site, "?"); return 0; }
+    out->status = WIFEXITED(st) ? WEXITSTATUS(st) : -1;
+    return 0;
 }
 
 /* ---------------- options ---------------- */
